@@ -59,6 +59,14 @@ pub fn dispatch(ctx: &Ctx, rep: &mut Report) {
                 crate::onris::c06::run(ctx, rep);
             }
         },
+        "C07" => {
+            if fm {
+                crate::onfm::c07::run(ctx, rep);
+            }
+            if ris {
+                crate::onris::c07::run(ctx, rep);
+            }
+        },
         other => {
             eprintln!("unknown check {other}");
             std::process::exit(3);
